@@ -63,6 +63,11 @@ class Isomorphism(Generic[ClassType1, ObjType1, ClassType2, ObjType2]):
         # Tracking matchin permutations
         self._order_map: Dict[Tuple[ClassType1, ClassType2], List[int]] = {}
 
+        # The matched pairs in the order they were added to the order map. A match
+        # found while some pair was assumed to match (recursion) is forgotten if
+        # that pair turns out not to match.
+        self._order_log: List[Tuple[ClassType1, ClassType2]] = []
+
         # Tracking failed matchings
         self._failed: Set[Tuple[ClassType1, ClassType2]] = set()
 
@@ -117,6 +122,9 @@ class Isomorphism(Generic[ClassType1, ObjType1, ClassType2, ObjType2]):
         # Update ancestors for recursion
         self._ancestors.update(product(eq_path1, eq_path2))
 
+        # Matches found from here on may rely on the current pair matching
+        log_start = len(self._order_log)
+
         # The number of nonempty children
         n = len(non_empty_ind1)
 
@@ -164,6 +172,7 @@ class Isomorphism(Generic[ClassType1, ObjType1, ClassType2, ObjType2]):
             # If we reach the last index we have succeeded
             if i1 == n - 1:
                 self._order_map[(curr1, curr2)] = child_order
+                self._order_log.append((curr1, curr2))
                 # Since we did not conclude this match by recursion we can remove our
                 # current ids from the ancestor set since the next ones we check are
                 # not descendants of the current ids (or their equivalences).
@@ -178,6 +187,11 @@ class Isomorphism(Generic[ClassType1, ObjType1, ClassType2, ObjType2]):
         self._ancestors.difference_update(product(eq_path1, eq_path2))
         self._failed.add((curr1, curr2))
         self._index_data.pop((curr1, curr2), None)
+        # Forget the matches that were found assuming the current pair matches.
+        for pair in self._order_log[log_start:]:
+            self._order_map.pop(pair, None)
+            self._index_data.pop(pair, None)
+        del self._order_log[log_start:]
         return False
 
     def _get_eq_descendant(
